@@ -386,6 +386,13 @@ impl Enforcer {
             }
         }
 
+        // a function installed with add_function keeps precedence over a
+        // role function of the same name, as on a freshly built enforcer
+        // (the engine keeps whichever registration came last)
+        for (key, &func) in self.fm.get_functions() {
+            Self::register_function(&mut self.engine, key, func);
+        }
+
         Ok(())
     }
 }
